@@ -156,6 +156,9 @@ def _tainted(ctx, term, sources):
             return "request"
         if isinstance(t, tuple) and t and t[0] in ("call", "ret") and isinstance(t[1], str) and ("reqwest::Response::json" in t[1] or "process_post_response" in t[1]):
             return "tower reply"
+        if isinstance(t, tuple) and t and t[0] in ("call", "ret") and isinstance(t[1], str) and (
+                "SpvClient" in t[1] and t[1].endswith("poll_best_tip") or "BlockSource>::get_" in t[1] or "bitcoincore_rpc::RpcApi::" in t[1] or t[1].endswith("RpcClient::call_method")):
+            return "Bitcoin node's reply"
     return None
 
 
